@@ -1,0 +1,68 @@
+//go:build verif
+
+// Exports of unexported fields and workers for the verification harness under /verif.
+package hdkeychain
+
+// VerifFields is a deep copy of the unexported fields of an ExtendedKey.  KeyNil / PubKeyNil /
+// VersionNil distinguish a nil slice from an empty one.
+type VerifFields struct {
+	Key        []byte
+	PubKey     []byte
+	ChainCode  []byte
+	ParentFP   []byte
+	Version    []byte
+	Depth      uint8
+	ChildNum   uint32
+	IsPrivate  bool
+	KeyNil     bool
+	PubKeyNil  bool
+	VersionNil bool
+}
+
+func verifClone(b []byte) []byte {
+	if b == nil {
+		return nil
+	}
+	return append([]byte{}, b...)
+}
+
+// VerifFields returns copies of all fields (no memoisation is triggered).
+func (k *ExtendedKey) VerifFields() VerifFields {
+	return VerifFields{
+		Key:        verifClone(k.key),
+		PubKey:     verifClone(k.pubKey),
+		ChainCode:  verifClone(k.chainCode),
+		ParentFP:   verifClone(k.parentFP),
+		Version:    verifClone(k.version),
+		Depth:      k.depth,
+		ChildNum:   k.childNum,
+		IsPrivate:  k.isPrivate,
+		KeyNil:     k.key == nil,
+		PubKeyNil:  k.pubKey == nil,
+		VersionNil: k.version == nil,
+	}
+}
+
+// VerifBuffers returns the field slices themselves (NOT copies): used to observe aliasing.
+func (k *ExtendedKey) VerifBuffers() (key, pubKey, chainCode, parentFP, version []byte) {
+	return k.key, k.pubKey, k.chainCode, k.parentFP, k.version
+}
+
+func (k *ExtendedKey) VerifKey() []byte       { return verifClone(k.key) }
+func (k *ExtendedKey) VerifPubKey() []byte    { return verifClone(k.pubKey) }
+func (k *ExtendedKey) VerifChainCode() []byte { return verifClone(k.chainCode) }
+func (k *ExtendedKey) VerifParentFP() []byte  { return verifClone(k.parentFP) }
+func (k *ExtendedKey) VerifVersion() []byte   { return verifClone(k.version) }
+func (k *ExtendedKey) VerifDepth() uint8      { return k.depth }
+func (k *ExtendedKey) VerifChildNum() uint32  { return k.childNum }
+func (k *ExtendedKey) VerifIsPrivate() bool   { return k.isPrivate }
+
+// VerifPubKeyBytes calls the memoising worker pubKeyBytes and returns a copy of its result.
+func (k *ExtendedKey) VerifPubKeyBytes() []byte { return verifClone(k.pubKeyBytes()) }
+
+// VerifPaddedAppend exposes paddedAppend.
+func VerifPaddedAppend(size uint, dst, src []byte) []byte { return paddedAppend(size, dst, src) }
+
+// VerifSetDepth overwrites the depth (used to reach depth 255 without 255 derivations and to build
+// keys NewExtendedKey cannot express differently; NewExtendedKey itself is exported upstream).
+func (k *ExtendedKey) VerifSetDepth(d uint8) { k.depth = d }
